@@ -11,6 +11,13 @@ from pytestarch.eval_structure_generation.file_import.import_types import (
 )
 
 
+# nodes that can (transitively) hold import statements: statements themselves (every branch of compound
+# statements, not only their 'body'), exception handlers and match cases
+STATEMENT_HOLDERS = (ast.stmt, ast.excepthandler) + (
+    (ast.match_case,) if hasattr(ast, "match_case") else ()
+)
+
+
 class ImportConverter:
     """Converts all ast imports to custom import types."""
 
@@ -38,10 +45,14 @@ class ImportConverter:
 
             ast_module, module_name = module.module, module.name
 
-            if hasattr(ast_module, "body"):
-                module_to_search.extend(
-                    [NamedModule(m, module_name) for m in ast_module.body]  # type: ignore
-                )
+            nested_statements = [
+                NamedModule(node, module_name)  # type: ignore
+                for node in ast.iter_child_nodes(ast_module)
+                if isinstance(node, STATEMENT_HOLDERS)
+            ]
+
+            if nested_statements:
+                module_to_search.extend(nested_statements)
             else:
                 new_imports = self._convert(
                     module.module,
